@@ -298,9 +298,7 @@ fn stale_ack_after_long_window(srv: &Server, d: &Path, n: usize) -> Result<Vec<&
     if !resent.is_empty() {
         return Err(("wire-retransmit-on-stale-ack".into(), format!("N={}: after a stale ACK 600 that followed a {}-datagram window the server re-sent {} DATA datagrams (first {:?}) although the timeout of 1 s had not elapsed since the end of the last transmission", n, 600 * (n + 1), resent.len(), &resent[..resent.len().min(4)])));
     }
-    if let Some((k, cnt)) = (1..=1200).map(|k| (k, copies[k])).find(|(_, cnt)| *cnt != n + 1) {
-        return Err(("wire-S9".into(), format!("N={}: block {} arrived {} times, expected {}", n, k, cnt, n + 1)));
-    }
+    // (the exact number of copies is checked by the multiplicity grid; here a slow reader could legitimately see a timeout retransmission)
     Ok(vec!["stale-ack-after-long-window"])
 }
 
